@@ -84,6 +84,33 @@ def match_two_runs (ok : Bool) (tab : List (Nat × Nat × Nat)) (notSecond : Lis
     else pure (.obj "re.Match" [("groups", .tuple [.str ds, .str ((s.dropWhile (inTable tab)).takeWhile fun c => !inRanges notSecond c)])])
   | _ => throw typeError
 
+/-! ### literal patterns that are a sequence of greedy class runs and literal characters
+
+The translator parses the pattern text with the interpreter's own regex parser, sweeps every character class over all
+code points, and checks that the greedy reading is the only one (a run is never followed by a character / class it
+could itself consume); the items below are what it emits.  `re.match`: a prefix of the string has to match. -/
+
+inductive SeqItem where
+  | lit (c : Nat)
+  /-- `[class]+`, captured as a group or not -/
+  | run (capture : Bool) (ranges : List (Nat × Nat))
+
+def matchSeq : List SeqItem → Str → List Str → Option (List Str)
+  | [], _, gs => some gs.reverse
+  | .lit _ :: _, [], _ => Option.none
+  | .lit c :: rest, x :: xs, gs => if x == c then matchSeq rest xs gs else Option.none
+  | .run cap t :: rest, s, gs =>
+    let ds := s.takeWhile (inRanges t)
+    if ds.isEmpty then Option.none else matchSeq rest (s.dropWhile (inRanges t)) (if cap then ds :: gs else gs)
+
+/-- `re.match(<literal>, s)` for such a pattern -/
+def match_seq (items : List SeqItem) (s : PyVal) : M PyVal :=
+  match s with
+  | .str s => pure (match matchSeq items s [] with
+    | some gs => .obj "re.Match" [("groups", .tuple (gs.map .str))]
+    | Option.none => .none)
+  | _ => throw typeError
+
 /-! ### `str.lower` by the regenerated table -/
 
 def str_lower_full : PyVal → M PyVal
